@@ -97,12 +97,14 @@ End HL.
 (* Session.updateIrcPrefix has been run since the last change of nick or user name *)
 Definition PrefixOK (s : session) : Prop := s_server s = false -> s_nick s <> "" -> s_prefix s = mk_prefix s.
 
-(* [D] is the set of session ids a message may be addressed to; it is fixed for a whole step *)
-Record JJ (D : N -> Prop) (sv : server) : Prop := {
+(* [D] bounds the ids of the sessions and of the nick index, [DS] the list of services links, [net] is the network
+   name; all three are fixed for a whole step *)
+Record JJ (D DS : N -> Prop) (net : string) (sv : server) : Prop := {
   j_sess : forall (k : N * N) s, sv_sessions sv !! k = Some s -> D (fst k) /\ s_key s = k /\ PrefixOK s;
   j_nicks : forall n (k : N * N), sv_nicks sv !! n = Some k -> D (fst k);
-  j_srv : forall id, In id (sv_serverSessions sv) -> D id;
+  j_srv : forall id, In id (sv_serverSessions sv) -> DS id;
   j_chan : forall lc c, sv_channels sv !! lc = Some c -> chan_to_lower (c_name c) = lc;
+  j_net : sv_netname sv = net;
 }.
 
 Definition sess_pfx (f : session -> session) : Prop :=
@@ -110,102 +112,104 @@ Definition sess_pfx (f : session -> session) : Prop :=
 Definition chan_name (f : chan -> chan) : Prop := forall c, c_name (f c) = c_name c.
 
 Section JJLemmas.
-  Variable D : N -> Prop.
+  Variables D DS : N -> Prop.
+  Variable net : string.
+  Notation JJ := (JJ D DS net).
 
   Lemma JJ_updSess sv (k : N * N) f :
-    sess_pfx f -> JJ D sv ->
-    JJ D (set_sessions (fun m => match m !! k with Some s => <[k := f s]> m | None => m end) sv).
+    sess_pfx f -> JJ sv ->
+    JJ (set_sessions (fun m => match m !! k with Some s => <[k := f s]> m | None => m end) sv).
   Proof.
-    intros Hf [Js Jn Jv Jc]. split; cbn [sv_sessions sv_nicks sv_channels sv_serverSessions set_sessions]; auto.
+    intros Hf [Js Jn Jv Jc Jt]. split; cbn [sv_sessions sv_nicks sv_channels sv_serverSessions set_sessions]; auto.
     intros k' s'. rewrite lookup_upd_sess. case_bool_decide as Heq; [destruct Heq|apply Js].
     destruct (sv_sessions sv !! k) as [s|] eqn:Hs; [|discriminate]. cbn. intros [= <-].
     destruct (Js _ _ Hs) as (Hd & Hk & Hp). destruct (Hf s) as [Hk' Hp']. split; [exact Hd|]. split; [congruence|auto].
   Qed.
-  Lemma JJ_fmap sv f : sess_pfx f -> JJ D sv -> JJ D (set_sessions (fmap f) sv).
+  Lemma JJ_fmap sv f : sess_pfx f -> JJ sv -> JJ (set_sessions (fmap f) sv).
   Proof.
-    intros Hf [Js Jn Jv Jc]. split; cbn [sv_sessions sv_nicks sv_channels sv_serverSessions set_sessions]; auto.
+    intros Hf [Js Jn Jv Jc Jt]. split; cbn [sv_sessions sv_nicks sv_channels sv_serverSessions set_sessions]; auto.
     intros k' s'. rewrite lookup_fmap. destruct (sv_sessions sv !! k') as [s|] eqn:Hs; [|discriminate]. cbn. intros [= <-].
     destruct (Js _ _ Hs) as (Hd & Hk & Hp). destruct (Hf s) as [Hk' Hp']. split; [exact Hd|]. split; [congruence|auto].
   Qed.
   Lemma JJ_insert_sess sv (key : N * N) s0 :
-    D (fst key) -> s_key s0 = key -> PrefixOK s0 -> JJ D sv -> JJ D (set_sessions (<[key := s0]>) sv).
+    D (fst key) -> s_key s0 = key -> PrefixOK s0 -> JJ sv -> JJ (set_sessions (<[key := s0]>) sv).
   Proof.
-    intros Hd Hk Hp [Js Jn Jv Jc]. split; cbn [sv_sessions sv_nicks sv_channels sv_serverSessions set_sessions]; auto.
+    intros Hd Hk Hp [Js Jn Jv Jc Jt]. split; cbn [sv_sessions sv_nicks sv_channels sv_serverSessions set_sessions]; auto.
     intros k' s'. destruct (decide (key = k')) as [<-|Hne].
     - rewrite lookup_insert. intros [= <-]. auto.
     - rewrite lookup_insert_ne by assumption. apply Js.
   Qed.
   Lemma JJ_channels sv g :
     (forall lc c, g (sv_channels sv) !! lc = Some c -> chan_to_lower (c_name c) = lc) ->
-    JJ D sv -> JJ D (set_channels g sv).
-  Proof. intros Hg [Js Jn Jv Jc]. split; cbn [sv_sessions sv_nicks sv_channels sv_serverSessions set_channels]; auto. Qed.
+    JJ sv -> JJ (set_channels g sv).
+  Proof. intros Hg [Js Jn Jv Jc Jt]. split; cbn [sv_sessions sv_nicks sv_channels sv_serverSessions set_channels]; auto. Qed.
   Lemma JJ_chan_upd sv lc f :
-    chan_name f -> JJ D sv ->
-    JJ D (set_channels (fun m => match m !! lc with Some c => <[lc := f c]> m | None => m end) sv).
+    chan_name f -> JJ sv ->
+    JJ (set_channels (fun m => match m !! lc with Some c => <[lc := f c]> m | None => m end) sv).
   Proof.
     intros Hf Hj. apply JJ_channels; [|exact Hj]. intros lc' c'. rewrite lookup_upd_chan.
-    case_bool_decide as Heq; [destruct Heq|apply (j_chan _ _ Hj)].
+    case_bool_decide as Heq; [destruct Heq|apply (j_chan _ _ _ _ Hj)].
     destruct (sv_channels sv !! lc) as [c|] eqn:Hc; [|discriminate]. cbn. intros [= <-]. rewrite Hf. eapply j_chan; eauto.
   Qed.
   Lemma JJ_chan_insert sv lc c0 :
-    chan_to_lower (c_name c0) = lc -> JJ D sv -> JJ D (set_channels (<[lc := c0]>) sv).
+    chan_to_lower (c_name c0) = lc -> JJ sv -> JJ (set_channels (<[lc := c0]>) sv).
   Proof.
     intros Hn Hj. apply JJ_channels; [|exact Hj]. intros lc' c'. destruct (decide (lc = lc')) as [<-|Hne].
     - rewrite lookup_insert. intros [= <-]. exact Hn.
-    - rewrite lookup_insert_ne by assumption. apply (j_chan _ _ Hj).
+    - rewrite lookup_insert_ne by assumption. apply (j_chan _ _ _ _ Hj).
   Qed.
-  Lemma JJ_chan_delete sv x : JJ D sv -> JJ D (set_channels (delete x) sv).
+  Lemma JJ_chan_delete sv x : JJ sv -> JJ (set_channels (delete x) sv).
   Proof.
-    intros Hj. apply JJ_channels; [|exact Hj]. intros lc' c' H. apply lookup_delete_Some in H. apply (j_chan _ _ Hj), H.
+    intros Hj. apply JJ_channels; [|exact Hj]. intros lc' c' H. apply lookup_delete_Some in H. apply (j_chan _ _ _ _ Hj), H.
   Qed.
-  Lemma JJ_chan_fmap sv f : chan_name f -> JJ D sv -> JJ D (set_channels (fmap f) sv).
+  Lemma JJ_chan_fmap sv f : chan_name f -> JJ sv -> JJ (set_channels (fmap f) sv).
   Proof.
     intros Hf Hj. apply JJ_channels; [|exact Hj]. intros lc' c' H. apply lookup_fmap_Some in H.
     destruct H as (c & <- & Hc). rewrite Hf. eapply j_chan; eauto.
   Qed.
   Lemma JJ_chan_filter_fmap sv (P : string * chan -> Prop) `{!forall x, Decision (P x)} f :
-    chan_name f -> JJ D sv -> JJ D (set_channels (fun chs => base.filter P (f <$> chs)) sv).
+    chan_name f -> JJ sv -> JJ (set_channels (fun chs => base.filter P (f <$> chs)) sv).
   Proof.
     intros Hf Hj. apply JJ_channels; [|exact Hj]. intros lc' c' Hl. apply map_filter_lookup_Some in Hl. destruct Hl as [Hl _].
     apply lookup_fmap_Some in Hl. destruct Hl as (c & <- & Hc). rewrite Hf. eapply j_chan; eauto.
   Qed.
   Lemma JJ_nicks sv g :
-    (forall n (k : N * N), g (sv_nicks sv) !! n = Some k -> D (fst k)) -> JJ D sv -> JJ D (set_nicks g sv).
-  Proof. intros Hg [Js Jn Jv Jc]. split; cbn [sv_sessions sv_nicks sv_channels sv_serverSessions set_nicks]; auto. Qed.
-  Lemma JJ_nicks_delete sv x : JJ D sv -> JJ D (set_nicks (delete x) sv).
-  Proof. intros Hj. apply JJ_nicks; [|exact Hj]. intros n k H. apply lookup_delete_Some in H. apply (j_nicks _ _ Hj n), H. Qed.
-  Lemma JJ_nicks_insert sv x (k : N * N) : D (fst k) -> JJ D sv -> JJ D (set_nicks (<[x := k]>) sv).
+    (forall n (k : N * N), g (sv_nicks sv) !! n = Some k -> D (fst k)) -> JJ sv -> JJ (set_nicks g sv).
+  Proof. intros Hg [Js Jn Jv Jc Jt]. split; cbn [sv_sessions sv_nicks sv_channels sv_serverSessions set_nicks]; auto. Qed.
+  Lemma JJ_nicks_delete sv x : JJ sv -> JJ (set_nicks (delete x) sv).
+  Proof. intros Hj. apply JJ_nicks; [|exact Hj]. intros n k H. apply lookup_delete_Some in H. apply (j_nicks _ _ _ _ Hj n), H. Qed.
+  Lemma JJ_nicks_insert sv x (k : N * N) : D (fst k) -> JJ sv -> JJ (set_nicks (<[x := k]>) sv).
   Proof.
     intros Hd Hj. apply JJ_nicks; [|exact Hj]. intros n k'. destruct (decide (x = n)) as [<-|Hne].
     - rewrite lookup_insert. intros [= <-]. exact Hd.
-    - rewrite lookup_insert_ne by assumption. apply (j_nicks _ _ Hj).
+    - rewrite lookup_insert_ne by assumption. apply (j_nicks _ _ _ _ Hj).
   Qed.
   Lemma JJ_nicks_move sv o x (k : N * N) :
-    D (fst k) -> JJ D sv -> JJ D (set_nicks (fun ns => delete o (<[x := k]> ns)) sv).
+    D (fst k) -> JJ sv -> JJ (set_nicks (fun ns => delete o (<[x := k]> ns)) sv).
   Proof.
     intros Hd Hj. apply JJ_nicks; [|exact Hj]. intros n k' H. apply lookup_delete_Some in H. destruct H as [_ H]. revert H.
     destruct (decide (x = n)) as [<-|Hne].
     - rewrite lookup_insert. intros [= <-]. exact Hd.
-    - rewrite lookup_insert_ne by assumption. apply (j_nicks _ _ Hj).
+    - rewrite lookup_insert_ne by assumption. apply (j_nicks _ _ _ _ Hj).
   Qed.
-  Lemma JJ_svsholds sv g : JJ D sv -> JJ D (set_svsholds g sv).
-  Proof. intros [Js Jn Jv Jc]. split; auto. Qed.
-  Lemma JJ_config sv g : JJ D sv -> JJ D (set_config g sv).
-  Proof. intros [Js Jn Jv Jc]. split; auto. Qed.
-  Lemma JJ_lastProcessed sv x : JJ D sv -> JJ D (set_lastProcessed x sv).
-  Proof. intros [Js Jn Jv Jc]. split; auto. Qed.
+  Lemma JJ_svsholds sv g : JJ sv -> JJ (set_svsholds g sv).
+  Proof. intros [Js Jn Jv Jc Jt]. split; auto. Qed.
+  Lemma JJ_config sv g : JJ sv -> JJ (set_config g sv).
+  Proof. intros [Js Jn Jv Jc Jt]. split; auto. Qed.
+  Lemma JJ_lastProcessed sv x : JJ sv -> JJ (set_lastProcessed x sv).
+  Proof. intros [Js Jn Jv Jc Jt]. split; auto. Qed.
   Lemma JJ_serverSessions sv id :
-    D id -> JJ D sv -> JJ D (set_serverSessions (fun l => (l ++ [id])%list) sv).
+    DS id -> JJ sv -> JJ (set_serverSessions (fun l => (l ++ [id])%list) sv).
   Proof.
-    intros Hd [Js Jn Jv Jc]. split; cbn [sv_sessions sv_nicks sv_channels sv_serverSessions set_serverSessions]; auto.
+    intros Hd [Js Jn Jv Jc Jt]. split; cbn [sv_sessions sv_nicks sv_channels sv_serverSessions set_serverSessions]; auto.
     intros id' Hin. apply in_app_or in Hin. destruct Hin as [Hin|[<-|[]]]; auto.
   Qed.
   (* removing sessions *)
   Lemma JJ_sessions_sub (sv : server) (g : gmap (N * N) session -> gmap (N * N) session) :
     (forall (k : N * N) s, g (sv_sessions sv) !! k = Some s -> sv_sessions sv !! k = Some s) ->
-    JJ D sv -> JJ D (set_sessions g sv).
+    JJ sv -> JJ (set_sessions g sv).
   Proof.
-    intros Hg [Js Jn Jv Jc]. split; cbn [sv_sessions sv_nicks sv_channels sv_serverSessions set_sessions]; auto.
+    intros Hg [Js Jn Jv Jc Jt]. split; cbn [sv_sessions sv_nicks sv_channels sv_serverSessions set_sessions]; auto.
   Qed.
 End JJLemmas.
 
@@ -265,21 +269,23 @@ Inductive rkind :=
 | KAll.                            (* everybody with a nickname *)
 
 Section Sites.
-  Variable D : N -> Prop.
+  Variables D DS : N -> Prop.
+  Variable net : string.
+  Notation JJ := (JJ D DS net).
   Variable k : N * N.        (* the session whose message is being processed *)
   Variable srv : bool.       (* ... is an authenticated services link *)
 
-  Definition Known (k' : N * N) : Prop := exists sv n, JJ D sv /\ sv_nicks sv !! n = Some k'.
+  Definition Known (k' : N * N) : Prop := exists sv n, JJ sv /\ sv_nicks sv !! n = Some k'.
   Definition Act (k' : N * N) : Prop := k' = k \/ (srv = true /\ Known k').
 
   Inductive piece : rkind -> list N -> Prop :=
   | P_act k' : Act k' -> piece (KAct k') (rc_user k')
-  | P_nick sv n k' : JJ D sv -> sv_nicks sv !! n = Some k' -> piece (KNick n k') (rc_user k')
-  | P_svc sv : JJ D sv -> piece KSvc (rc_services sv)
-  | P_chan sv lc c rc : JJ D sv -> sv_channels sv !! lc = Some c -> rc_channel sv c = Ok rc -> piece (KChan lc) rc
-  | P_but sv lc c but rc : JJ D sv -> sv_channels sv !! lc = Some c -> rc_channel_but sv c but = Ok rc -> piece (KBut lc) rc
-  | P_common sv k' s rc : JJ D sv -> sv_sessions sv !! k' = Some s -> rc_common sv s = Ok rc -> piece (KCommon k') rc
-  | P_all sv : JJ D sv -> piece KAll (rc_all sv).
+  | P_nick sv n k' : JJ sv -> sv_nicks sv !! n = Some k' -> piece (KNick n k') (rc_user k')
+  | P_svc sv : JJ sv -> piece KSvc (rc_services sv)
+  | P_chan sv lc c rc : JJ sv -> sv_channels sv !! lc = Some c -> rc_channel sv c = Ok rc -> piece (KChan lc) rc
+  | P_but sv lc c but rc : JJ sv -> sv_channels sv !! lc = Some c -> rc_channel_but sv c but = Ok rc -> piece (KBut lc) rc
+  | P_common sv k' s rc : JJ sv -> sv_sessions sv !! k' = Some s -> rc_common sv s = Ok rc -> piece (KCommon k') rc
+  | P_all sv : JJ sv -> piece KAll (rc_all sv).
 
   Inductive Rc : list rkind -> list N -> Prop :=
   | R_one kd rc : piece kd rc -> Rc [kd] rc
@@ -306,7 +312,7 @@ Section Sites.
   Definition PfM (m : imsg) : Prop :=
     match m_prefix m with
     | None => True
-    | Some p => (exists sv, p = server_prefix sv) \/ srv = true \/
+    | Some p => p = Prefix net "" "" \/ srv = true \/
                 (exists k' s, Rec k' s /\ p = s_prefix s /\ (k' = k \/ ucmd m = "QUIT")) \/
                 (exists nick, p = Prefix nick "" "" /\ ucmd m = "TOPIC")
     end.
@@ -328,22 +334,22 @@ Ltac solve_lookup :=
   first [ eassumption | (cbn [sv_channels set_sessions set_channels set_nicks]; apply lookup_insert) ].
 Ltac solve_piece :=
   lazymatch goal with
-  | |- piece _ _ _ _ (rc_user ?k') =>
+  | |- piece _ _ _ _ _ _ (rc_user ?k') =>
       first [ (eapply P_act; solve_act)
-            | match goal with H : sv_nicks ?sv !! ?n = Some k' |- _ => eapply (P_nick _ _ _ sv n k'); [assumption|exact H] end ]
-  | |- piece _ _ _ _ (rc_services ?sv) => eapply P_svc; assumption
-  | |- piece _ _ _ _ (rc_all ?sv) => eapply P_all; assumption
-  | |- piece _ _ _ _ ?rc =>
+            | match goal with H : sv_nicks ?sv !! ?n = Some k' |- _ => eapply (P_nick _ _ _ _ _ sv n k'); [assumption|exact H] end ]
+  | |- piece _ _ _ _ _ _ (rc_services ?sv) => eapply P_svc; assumption
+  | |- piece _ _ _ _ _ _ (rc_all ?sv) => eapply P_all; assumption
+  | |- piece _ _ _ _ _ _ ?rc =>
       match goal with
-      | H : rc_channel ?sv ?c = Ok rc |- _ => eapply (P_chan _ _ _ sv _ c rc); [assumption|solve_lookup|exact H]
-      | H : rc_channel_but ?sv ?c ?b = Ok rc |- _ => eapply (P_but _ _ _ sv _ c b rc); [assumption|eassumption|exact H]
-      | H : rc_common ?sv ?s = Ok rc |- _ => eapply (P_common _ _ _ sv _ s rc); [assumption|eassumption|exact H]
+      | H : rc_channel ?sv ?c = Ok rc |- _ => eapply (P_chan _ _ _ _ _ sv _ c rc); [assumption|solve_lookup|exact H]
+      | H : rc_channel_but ?sv ?c ?b = Ok rc |- _ => eapply (P_but _ _ _ _ _ sv _ c b rc); [assumption|eassumption|exact H]
+      | H : rc_common ?sv ?s = Ok rc |- _ => eapply (P_common _ _ _ _ _ sv _ s rc); [assumption|eassumption|exact H]
       end
   end.
 Ltac solve_rc :=
   lazymatch goal with
-  | |- Rc _ _ _ _ (_ ++ _)%list => eapply R_app; [solve_rc|solve_rc]
-  | |- Rc _ _ _ _ _ => eapply R_one; solve_piece
+  | |- Rc _ _ _ _ _ _ (_ ++ _)%list => eapply R_app; [solve_rc|solve_rc]
+  | |- Rc _ _ _ _ _ _ _ => eapply R_one; solve_piece
   end.
 
 Ltac eval_cls :=
@@ -351,10 +357,10 @@ Ltac eval_cls :=
 
 Ltac solve_lc :=
   first [ reflexivity
-        | match goal with HJ : JJ _ ?sv, H : sv_channels ?sv !! _ = Some ?c |- chan_to_lower (c_name ?c) = _ =>
-            exact (j_chan _ _ HJ _ _ H) end
-        | match goal with HJ : JJ _ ?sv, H : sv_channels ?sv !! _ = Some ?c |- _ = chan_to_lower (c_name ?c) =>
-            symmetry; exact (j_chan _ _ HJ _ _ H) end ].
+        | match goal with HJ : JJ _ _ _ ?sv, H : sv_channels ?sv !! _ = Some ?c |- chan_to_lower (c_name ?c) = _ =>
+            exact (j_chan _ _ _ _ HJ _ _ H) end
+        | match goal with HJ : JJ _ _ _ ?sv, H : sv_channels ?sv !! _ = Some ?c |- _ = chan_to_lower (c_name ?c) =>
+            symmetry; exact (j_chan _ _ _ _ HJ _ _ H) end ].
 Ltac solve_or :=
   first [ reflexivity | (eexists; reflexivity) | (eexists _, _; reflexivity)
         | (f_equal; solve_lc) | (left; solve_or) | (right; solve_or) ].
@@ -368,17 +374,18 @@ Ltac solve_kinds :=
 
 Ltac rec_of HA :=
   match goal with
-  | HJ : JJ _ ?sv, H : sv_sessions ?sv !! ?k0 = Some ?s |- exists k' s', Rec k' s' /\ s_prefix ?s = _ /\ _ =>
-      exists k0, s; split; [destruct (j_sess _ _ HJ _ _ H) as (_ & ? & ?); split; assumption|]
+  | HJ : JJ _ _ _ ?sv, H : sv_sessions ?sv !! ?k0 = Some ?s |- exists k' s', Rec k' s' /\ s_prefix ?s = _ /\ _ =>
+      exists k0, s; split; [destruct (j_sess _ _ _ _ HJ _ _ H) as (_ & ? & ?); split; assumption|]
   end.
 Ltac solve_pf :=
   unfold PfM; cbn [m_prefix srvmsg usrmsg noprefix];
   first [ exact Logic.I
-        | (left; eexists; reflexivity)
+        | (left; unfold server_prefix;
+           match goal with HJ : JJ _ _ _ ?sv |- Prefix (sv_netname ?sv) _ _ = _ => rewrite (j_net _ _ _ _ HJ); reflexivity end)
         | (right; left; assumption)
         | (right; right; right; eexists; split; reflexivity)
         | (right; right; left; rec_of tt; split; [reflexivity|right; reflexivity])
-        | match goal with HA : Act _ _ _ _ |- _ =>
+        | match goal with HA : Act _ _ _ _ _ _ |- _ =>
             destruct HA as [HA|[HA _]];
             [ right; right; left; rec_of tt; split; [reflexivity|left; exact HA] | right; left; exact HA ] end ].
 
@@ -388,18 +395,21 @@ Ltac site := try solve [solve_site].
 
 (* ---- compound updates: between their steps the stored prefix is stale, afterwards it is not --------- *)
 Section JJCompound.
-  Variable D : N -> Prop.
+  Variables D DS : N -> Prop.
+  Variable net : string.
+  Notation JJ := (JJ D DS net).
 
   Lemma JJ_core (sv sv' : server) :
-    JJ D sv ->
+    JJ sv ->
     (forall (k' : N * N) s', sv_sessions sv' !! k' = Some s' ->
        exists s, sv_sessions sv !! k' = Some s /\ s_key s' = s_key s /\ (s' = s \/ PrefixOK s')) ->
     (forall n (k' : N * N), sv_nicks sv' !! n = Some k' -> sv_nicks sv !! n = Some k' \/ D (fst k')) ->
     sv_serverSessions sv' = sv_serverSessions sv ->
     (forall lc c', sv_channels sv' !! lc = Some c' -> exists c, sv_channels sv !! lc = Some c /\ c_name c' = c_name c) ->
-    JJ D sv'.
+    sv_netname sv' = sv_netname sv ->
+    JJ sv'.
   Proof.
-    intros [Js Jn Jv Jc] Hs Hn Hv Hc. split.
+    intros [Js Jn Jv Jc Jt] Hs Hn Hv Hc Ht. split; [| | | |congruence].
     - intros k' s' H. destruct (Hs _ _ H) as (s & Hs0 & Hk & Hp). destruct (Js _ _ Hs0) as (Hd & Hk0 & Hp0).
       split; [exact Hd|]. split; [congruence|]. destruct Hp as [->|Hp]; assumption.
     - intros n k' H. destruct (Hn _ _ H) as [H0|H0]; [eapply Jn; eauto|exact H0].
@@ -412,11 +422,11 @@ Section JJCompound.
 
   (* an arbitrary key-preserving change of the record followed by change_nick *)
   Lemma JJ_nick_state sv (k0 : N * N) f0 nick old caps :
-    (forall s, s_key (f0 s) = s_key s) -> D (fst k0) -> JJ D sv ->
-    JJ D (nick_state k0 nick old caps
+    (forall s, s_key (f0 s) = s_key s) -> D (fst k0) -> JJ sv ->
+    JJ (nick_state k0 nick old caps
             (set_sessions (fun m => match m !! k0 with Some s => <[k0 := f0 s]> m | None => m end) sv)).
   Proof.
-    intros Hf Hd Hj. eapply JJ_core; [exact Hj| | | |].
+    intros Hf Hd Hj. eapply JJ_core; [exact Hj| | | | |].
     - intros k' s'. rewrite nick_state_sessions. cbn [sv_sessions set_sessions]. rewrite lookup_upd_sess.
       destruct (decide (k0 = k')) as [<-|Hne].
       + rewrite !bool_decide_true by reflexivity. destruct (sv_sessions sv !! k0) as [s|]; [|discriminate].
@@ -436,17 +446,18 @@ Section JJCompound.
         cbn [sv_channels set_sessions set_nicks set_channels]; intros H.
       + apply lookup_fmap_Some in H. destruct H as (c & <- & Hc). exists c. auto.
       + exists c'. auto.
+    - unfold nick_state. destruct (negb (is_empty old) && negb caps); reflexivity.
   Qed.
 
   (* the four steps of SVSNICK *)
   Lemma JJ_svsnick sv (tk : N * N) p1 old :
-    D (fst tk) -> JJ D sv ->
-    JJ D (set_sessions (fun m => match m !! tk with Some s => <[tk := update_prefix s]> m | None => m end)
+    D (fst tk) -> JJ sv ->
+    JJ (set_sessions (fun m => match m !! tk with Some s => <[tk := update_prefix s]> m | None => m end)
            (set_channels (fmap (cc_nicks (rename_member old (nick_to_lower p1))))
               (set_nicks (fun ns => delete old (<[nick_to_lower p1 := tk]> ns))
                  (set_sessions (fun m => match m !! tk with Some s => <[tk := ss_nick p1 s]> m | None => m end) sv)))).
   Proof.
-    intros Hd Hj. eapply JJ_core; [exact Hj| | | |].
+    intros Hd Hj. eapply JJ_core; [exact Hj| | | | |].
     - intros k' s'. cbn [sv_sessions set_sessions set_nicks set_channels]. rewrite !lookup_upd_sess.
       destruct (decide (tk = k')) as [<-|Hne].
       + rewrite !bool_decide_true by reflexivity. destruct (sv_sessions sv !! tk) as [s|]; [|discriminate].
@@ -460,6 +471,7 @@ Section JJCompound.
     - reflexivity.
     - intros lc c'. cbn [sv_channels set_sessions set_nicks set_channels]. intros H.
       apply lookup_fmap_Some in H. destruct H as (c & <- & Hc). exists c. auto.
+    - reflexivity.
   Qed.
 End JJCompound.
 
@@ -484,18 +496,19 @@ Proof.
   destruct (negb (is_empty old) && negb caps); reflexivity.
 Qed.
 
-Lemma Act_D (D : N -> Prop) (k : N * N) (srv : bool) (k' : N * N) : D (fst k) -> Act D k srv k' -> D (fst k').
+Lemma Act_D (D DS : N -> Prop) net (k : N * N) (srv : bool) (k' : N * N) :
+  D (fst k) -> Act D DS net k srv k' -> D (fst k').
 Proof. intros Dk [->|[_ (sv & n & HJ & Hn)]]; [exact Dk|eapply j_nicks; eauto]. Qed.
 
 Ltac solve_D :=
   first [ assumption
         | (eapply Act_D; eassumption)
-        | match goal with HJ : JJ _ ?sv, H : sv_sessions ?sv !! ?k0 = Some _ |- _ (fst ?k0) => exact (proj1 (j_sess _ _ HJ _ _ H)) end
-        | match goal with HJ : JJ _ ?sv, H : sv_nicks ?sv !! _ = Some ?k0 |- _ (fst ?k0) => exact (j_nicks _ _ HJ _ _ H) end ].
+        | match goal with HJ : JJ _ _ _ ?sv, H : sv_sessions ?sv !! ?k0 = Some _ |- _ (fst ?k0) => exact (proj1 (j_sess _ _ _ _ HJ _ _ H)) end
+        | match goal with HJ : JJ _ _ _ ?sv, H : sv_nicks ?sv !! _ = Some ?k0 |- _ (fst ?k0) => exact (j_nicks _ _ _ _ HJ _ _ H) end ].
 
 Ltac jj_inv2 :=
   first [ jj_inv
-        | (apply JJ_serverSessions; [solve_D|assumption])
+        | (apply JJ_serverSessions; [assumption|assumption])
         | (apply JJ_nicks_insert; [solve_D|assumption])
         | (apply JJ_chan_insert; [cbn [c_name cc_nicks new_chan]; solve_lc|assumption])
         | (apply JJ_chan_insert; [|assumption]; cbn [c_name cc_nicks new_chan];
@@ -527,7 +540,7 @@ Ltac hl_step site inv :=
   | |- hl _ _ _ (bindM (gapM _) _) => apply hl_bind_gap
   | |- hl _ _ _ (bindM replyCount _) => apply hl_bind_replyCount; intros ?
   | |- hl _ _ _ (bindM (liftR _) _) => apply hl_bind_liftR; intros ? ?
-  | |- hl _ _ _ (bindM (emit _ _) _) => eapply (hl_bind_emit _ _ _ (outP_emit _ _ _)); [intros ?; site|]
+  | |- hl _ _ _ (bindM (emit _ _) _) => eapply (hl_bind_emit _ _ _ (outP_emit _ _ _ _ _)); [intros ?; site|]
   | |- hl _ _ _ (bindM (modS _) _) => apply hl_bind_modS; [intros ?; inv|]
   | |- hl _ _ _ (bindM (whenM ?b _) _) => destruct b eqn:?; cbn [whenM]
   | |- hl _ _ _ (bindM (if ?b then _ else _) _) => destruct b eqn:?
@@ -539,7 +552,7 @@ Ltac hl_step site inv :=
   | |- hl _ _ _ getS => apply hl_getS
   | |- hl _ _ _ replyCount => apply hl_replyCount
   | |- hl _ _ _ (liftR _) => apply hl_liftR
-  | |- hl _ _ _ (emit _ _) => eapply (hl_emit _ _ _ (outP_emit _ _ _)); intros ?; site
+  | |- hl _ _ _ (emit _ _) => eapply (hl_emit _ _ _ (outP_emit _ _ _ _ _)); intros ?; site
   | |- hl _ _ _ (modS _) => apply hl_modS; intros ?; inv
   | |- hl _ _ _ (whenM ?b _) => destruct b eqn:?; cbn [whenM]
   | |- hl _ _ _ (forM _ _) => apply hl_forM; intros ? ?
@@ -552,13 +565,16 @@ Ltac hl_step site inv :=
 (* 4. Every handler                                                                                       *)
 (* ====================================================================================================== *)
 Section Handlers.
-  Variable D : N -> Prop.
+  Variables D DS : N -> Prop.
+  Variable net : string.
   Variable k : N * N.
   Variable srv : bool.
   Hypothesis Dk : D (fst k).
+  Hypothesis DSk : DS (fst k).
 
-  Notation HL := (hl (JJ D) (outP D k srv)).
-  Notation ACT := (Act D k srv).
+  Notation JJ := (JJ D DS net).
+  Notation HL := (hl JJ (outP D DS net k srv)).
+  Notation ACT := (Act D DS net k srv).
 
   Ltac unf := unfold reply_num, reply_svc, sessM, updSess, updChan, chanM, nickM, cfgM, param, prefix_name, msg_prefix,
                 chanop_of, captcha_url_check, leave_channel, maybe_delete_channel, add_member,
@@ -584,21 +600,22 @@ Section Handlers.
   Lemma ok_change_nick k0 nick old caps sv : D (fst k0) -> HL sv (change_nick k0 nick old caps).
   Proof.
     intros Hd r HJ HP. rewrite change_nick_run. split; [|exact HP].
-    pose proof (JJ_nick_state D sv k0 (fun s => s) nick old caps (fun s => eq_refl) Hd HJ) as H.
-    eapply JJ_core; [exact HJ| | | |].
-    - intros k' s' Hs'. destruct (j_sess _ _ H k' s') as (_ & Hk & Hp).
+    pose proof (JJ_nick_state D DS net sv k0 (fun s => s) nick old caps (fun s => eq_refl) Hd HJ) as H.
+    eapply JJ_core; [exact HJ| | | | |].
+    - intros k' s' Hs'. destruct (j_sess _ _ _ _ H k' s') as (_ & Hk & Hp).
       + revert Hs'. rewrite !nick_state_sessions. cbn [sv_sessions set_sessions]. rewrite lookup_upd_sess.
         destruct (bool_decide (k0 = k')), (sv_sessions sv !! k'); exact (fun x => x).
       + revert Hs'. rewrite nick_state_sessions. destruct (sv_sessions sv !! k') as [s|]; [|discriminate]. cbn.
         intros [= <-]. exists s. split; [reflexivity|]. case_bool_decide; [split; [reflexivity|right]|auto].
         apply PrefixOK_update.
-    - intros n k' Hn. right. apply (j_nicks _ _ H n). revert Hn. unfold nick_state.
+    - intros n k' Hn. right. apply (j_nicks _ _ _ _ H n). revert Hn. unfold nick_state.
       destruct (negb (is_empty old) && negb caps); exact (fun x => x).
     - unfold nick_state. destruct (negb (is_empty old) && negb caps); reflexivity.
     - intros lc c' Hc. unfold nick_state in Hc. destruct (negb (is_empty old) && negb caps);
         cbn [sv_channels set_sessions set_nicks set_channels] in Hc.
       + apply lookup_fmap_Some in Hc. destruct Hc as (c & <- & Hc). exists c. auto.
       + exists c'. auto.
+    - unfold nick_state. destruct (negb (is_empty old) && negb caps); reflexivity.
   Qed.
 
   Lemma ok_maybe_login e k0 m sv : ACT k0 -> HL sv (maybe_login e k0 m).
@@ -673,11 +690,11 @@ Section Handlers.
 
   (* ---- services ------------------------------------------------------------------------------------- *)
 
-  Lemma ok_burst_one sv0 t sv : JJ D sv0 -> HL sv (burst_one sv0 t).
+  Lemma ok_burst_one sv0 t sv : JJ sv0 -> HL sv (burst_one sv0 t).
   Proof. intros HJ0. unfold burst_one. unf. go. all: rest. Qed.
   Local Hint Resolve ok_burst_one : hldb.
-  Lemma ok_cmd_server k0 m sv : ACT k0 -> HL sv (cmd_server k0 m).
-  Proof. intros HA. unfold cmd_server, member_session. unf. go. all: rest. Qed.
+  Lemma ok_cmd_server m sv : HL sv (cmd_server k m).
+  Proof. assert (HA : ACT k) by (left; reflexivity). unfold cmd_server, member_session. unf. go. all: rest. Qed.
 
   Lemma ok_upd_change_nick (k0 : N * N) f0 nick old caps sv :
     (forall s, s_key (f0 s) = s_key s) -> D (fst k0) ->
@@ -690,8 +707,8 @@ Section Handlers.
 
   Section Link.
     Hypothesis Hsrv : srv = true.
-    Local Hint Extern 1 (Act _ _ _ _) =>
-      match goal with HJ : JJ _ ?sv, H : sv_nicks ?sv !! ?n = Some ?tk |- Act _ _ _ ?tk =>
+    Local Hint Extern 1 (Act _ _ _ _ _ _) =>
+      match goal with HJ : Recipients2.JJ _ _ _ ?sv, H : sv_nicks ?sv !! ?n = Some ?tk |- Act _ _ _ _ _ ?tk =>
         right; split; [assumption|exists sv, n; split; assumption] end : hldb.
 
     Lemma ok_cmd_server_nick k0 m sv : ACT k0 -> HL sv (cmd_server_nick k0 m).
@@ -764,7 +781,7 @@ Section Handlers.
                | apply ok_cmd_part; exact HA | apply ok_cmd_pass; exact HA | apply ok_cmd_ping; exact HA
                | apply ok_cmd_quit; exact HA | apply ok_cmd_topic; exact HA | apply ok_cmd_user; exact HA
                | apply ok_cmd_userhost; exact HA | apply ok_cmd_who; exact HA | apply ok_cmd_whois; exact HA
-               | apply ok_cmd_server; exact HA
+               | apply ok_cmd_server
                | apply ok_cmd_server_invite; [exact Hsrv|exact HA] | apply ok_cmd_server_join; [exact Hsrv|exact HA]
                | apply ok_cmd_server_kick; [exact Hsrv|exact HA] | apply ok_cmd_server_kill; [exact Hsrv|exact HA]
                | apply ok_cmd_server_mode; [exact Hsrv|exact HA] | apply ok_cmd_server_nick; [exact Hsrv|exact HA]
@@ -773,4 +790,90 @@ Section Handlers.
                | apply ok_cmd_server_svsmode; [exact Hsrv|exact HA] | apply ok_cmd_server_svsnick; [exact Hsrv|exact HA]
                | apply ok_cmd_server_svspart; [exact Hsrv|exact HA] | apply ok_cmd_server_topic; [exact Hsrv|exact HA] ].
   Qed.
+  (* ---- ProcessMessage -------------------------------------------------------------------------------- *)
+  Lemma ok_process_message e ra ircmsg sv s0 :
+    sv_sessions sv !! k = Some s0 -> s_server s0 = srv -> HL sv (process_message e k ra ircmsg).
+  Proof.
+    intros Hs0 Hsrv0. assert (HA : ACT k) by (left; reflexivity).
+    unfold process_message. unfold sessM at 1. apply hl_bind_assoc, hl_bind_getS. intros HJ. rewrite Hs0. apply hl_bind_ret.
+    destruct ircmsg as [m|]; [|unf; go]. cbv zeta.
+    match goal with |- hl _ _ _ (bindM _ (fun banned => if banned then retM tt else ?tail)) =>
+      assert (Htail : forall sv1 s1, sv_sessions sv1 !! k = Some s1 -> s_server s1 = srv -> HL sv1 tail) end.
+    { intros sv1 s1 Hs1 Hsrv1. unfold sessM at 1. apply hl_bind_assoc, hl_bind_getS. intros HJ1. rewrite Hs1. apply hl_bind_ret.
+      destruct (negb (s_loggedIn s1) && negb (s_server s1) && negb (pre_registration (to_upper (m_cmd m)))) eqn:Hgate; [unf; go|].
+      destruct (assoc_str _ commands) as [[minp f]|] eqn:Hc; [|unf; go].
+      destruct (Nat.ltb _ _); [unf; go|].
+      eapply ok_dispatch; [eapply assoc_str_In; exact Hc|]. rewrite Hsrv1. reflexivity. }
+    destruct (negb (is_empty ra) && negb (String.eqb ra (s_remoteAddr s0))) eqn:Hra.
+    - unfold updSess, cfgM.
+      repeat first [ (apply Htail with (s1 := ss_remoteAddr ra s0);
+                       [cbn [sv_sessions set_sessions]; rewrite lookup_upd_sess, bool_decide_true, Hs0 by reflexivity; reflexivity
+                       |exact Hsrv0])
+                   | hl_step site inv | sub ].
+    - apply hl_bind_ret. cbn [negb]. eapply Htail; [exact Hs0|exact Hsrv0].
+  Qed.
 End Handlers.
+
+(* ====================================================================================================== *)
+(* 5. Log entries                                                                                         *)
+(* ====================================================================================================== *)
+Definition entry_key (en : entry) : N * N :=
+  match en with
+  | ECreate id _ _ | EConfig id _ _ _ => (id, 0%N)
+  | EDelete _ _ s _ | EMessage _ _ s _ _ _ | EDeath _ _ s _ _ => (s, 0%N)
+  end.
+(* is the session an entry acts for an authenticated services link? *)
+Definition entry_srv (sv : server) (en : entry) : bool :=
+  match sv_sessions sv !! entry_key en with Some s => s_server s | None => false end.
+
+Lemma JJ_maybe_delete D DS net (k : N * N) sv : JJ D DS net sv -> JJ D DS net (maybe_delete_session k sv).
+Proof.
+  intros HJ. unfold maybe_delete_session. destruct (sv_sessions sv !! k) as [s|]; [|exact HJ].
+  assert (H1 : JJ D DS net (if s_server s || s_operator s
+                     then set_sessions (base.filter (fun kv : N * N * session => s_deleted kv.2 = false)) sv else sv)).
+  { destruct (s_server s || s_operator s); [|exact HJ]. apply JJ_sessions_sub; [|exact HJ].
+    intros k' s' H. apply map_filter_lookup_Some in H. apply H. }
+  destruct (s_deleted s); [|exact H1]. apply JJ_sessions_sub; [|exact H1].
+  intros k' s' H. apply lookup_delete_Some in H. apply H.
+Qed.
+
+Lemma JJ_update_last_cmid D DS net k ts data cmid sv sv1 :
+  JJ D DS net sv -> update_last_cmid k ts data cmid sv = Some sv1 ->
+  JJ D DS net sv1 /\ exists s s1, sv_sessions sv !! k = Some s /\ sv_sessions sv1 !! k = Some s1 /\ s_server s1 = s_server s.
+Proof.
+  intros HJ H. unfold update_last_cmid in H. destruct (sv_sessions sv !! k) as [s|] eqn:Hs; [|discriminate].
+  injection H as <-. destruct (j_sess _ _ _ _ HJ _ _ Hs) as (Hd & Hk & Hp). split.
+  - apply JJ_insert_sess; [exact Hd|exact Hk|exact Hp|exact HJ].
+  - eexists _, _. split; [reflexivity|]. cbn [sv_sessions set_sessions]. rewrite lookup_insert. split; reflexivity.
+Qed.
+
+Theorem entry_sites D DS net e sv en sv' out :
+  JJ D DS net sv -> DS (fst (entry_key en)) -> apply_entry e sv en = OOk sv' out ->
+  Forall (outP D DS net (entry_key en) (entry_srv sv en)) out /\
+  (match en with ECreate id _ _ => D id | _ => True end -> JJ D DS net sv').
+Proof.
+  intros HJ HDS. destruct en as [id un auth|id un session q|id un session cmid ra data|id un session cmid data|id un rev parsed];
+    cbn [apply_entry entry_key].
+  - unfold create_session, bindM, getS, retM, modS. destruct (_ && _); cbn; [discriminate|]. intros [= <- <-].
+    split; [constructor|]. intros Hd. apply JJ_insert_sess; [exact Hd|reflexivity|intros _ Hn; exfalso; apply Hn; reflexivity|exact HJ].
+  - unfold entry_srv. cbn [entry_key]. destruct (sv_sessions sv !! (session, 0%N)) as [s|] eqn:Hs;
+      [|intros [= <- <-]; split; [constructor|intros _; exact HJ]].
+    unfold run_handler.
+    pose proof (ok_process_message D DS net (session, 0%N) (s_server s) (proj1 (j_sess _ _ _ _ HJ _ _ Hs)) HDS e ""
+                  (parse_message ("QUIT :" ++ q)) sv s Hs eq_refl (RCtx id []) HJ (Forall_nil _)) as H.
+    destruct (process_message _ _ _ _ sv _) as [[[[] sv1] r1]|?|?]; try discriminate.
+    intros [= <- <-]. destruct H as [HJ1 HP1]. split; [apply Forall_rev, HP1|]. intros _.
+    apply JJ_maybe_delete, JJ_lastProcessed, HJ1.
+  - destruct (is_retry _ _ sv); [intros [= <- <-]; split; [constructor|intros _; exact HJ]|].
+    destruct (update_last_cmid _ _ _ _ sv) as [sv1|] eqn:Hu; [|discriminate].
+    destruct (JJ_update_last_cmid _ _ _ _ _ _ _ _ _ HJ Hu) as (HJ1 & s & s1 & Hs & Hs1 & Hsrv).
+    unfold entry_srv. cbn [entry_key]. rewrite Hs. unfold run_handler.
+    pose proof (ok_process_message D DS net (session, 0%N) (s_server s) (proj1 (j_sess _ _ _ _ HJ _ _ Hs)) HDS e ra
+                  (parse_message data) sv1 s1 Hs1 Hsrv (RCtx id []) HJ1 (Forall_nil _)) as H.
+    destruct (process_message _ _ _ _ sv1 _) as [[[[] sv2] r2]|?|?]; try discriminate.
+    intros [= <- <-]. destruct H as [HJ2 HP2]. split; [apply Forall_rev, HP2|]. intros _.
+    apply JJ_maybe_delete, JJ_lastProcessed, HJ2.
+  - destruct (update_last_cmid _ _ _ _ sv) as [sv1|] eqn:Hu; [|discriminate].
+    intros [= <- <-]. split; [constructor|]. intros _. eapply JJ_update_last_cmid; eauto.
+  - destruct parsed; intros [= <- <-]; (split; [constructor|intros _]); [apply JJ_config|]; exact HJ.
+Qed.
